@@ -1,6 +1,7 @@
 //! dpmc-core: checks C01–C09, C11–C13 (managed and unmanaged pool core).
 mod conc;
 mod seq;
+mod tworld;
 mod uworld;
 mod mworld;
 mod scenarios;
